@@ -354,13 +354,13 @@ def run(chk):
         # 2. systematic family: writer kind x reader kind x redundant-computation depths x annexed
         sys_inv = systematic_invokes()
         if not thorough:
-            sys_inv = rng.sample(sys_inv, 24)
+            sys_inv = rng.sample(sys_inv, 16)
         info = R.parse_file(wd.path, SYS_POOL, sys_inv, tag="sys")
         cases = []
         for idx, invk in enumerate(sys_inv):
             base, ext = systematic_histories()
             for ann in (0, 1):
-                for hist in base + (ext if thorough else rng.sample(ext, 24)):
+                for hist in base + (ext if thorough else rng.sample(ext, 20)):
                     res = run_history(rng, info, idx, ann, 0, fixed_steps=hist)
                     if "crash" in res:
                         dist["crashed"] += 1
@@ -370,8 +370,8 @@ def run(chk):
         dist["systematic_cases"] = len(cases)
         evaluate(chk, cases, findings, known_hits)
         # 3. generated invokes
-        n_inv = 120 if thorough else 30
-        n_hist = 8 if thorough else 6
+        n_inv = 120 if thorough else 22
+        n_hist = 8 if thorough else 5
         pool = [R.gen_kernel(rng, i) for i in range(24 if thorough else 12)]
         invokes = [R.gen_invoke(rng, pool) for _ in range(n_inv)]
         info = R.parse_file(wd.path, pool, invokes, tag="gen")
